@@ -1,6 +1,6 @@
 From Coq Require Import ZArith List Bool Reals Lra.
 From Flocq Require Import Core BinarySingleNaN.
-Require Import GV.FloatBase GV.FloatLemmas GV.AngleM GV.AngleProofs GV.GeonumM GV.GeonumProofs GV.TraitsM GV.NewProofs GV.CtorProofs GV.PiBounds GV.TrigProofs GV.DotValue GV.ClosureProofs GV.SumUpper GV.DistValue GV.DirProofs GV.SumDir GV.DecompProofs.
+Require Import GV.FloatBase GV.FloatLemmas GV.AngleM GV.AngleProofs GV.GeonumM GV.GeonumProofs GV.TraitsM GV.NewProofs GV.CtorProofs GV.PiBounds GV.TrigProofs GV.DotValue GV.ClosureProofs GV.SumUpper GV.DistValue GV.DirProofs GV.SumDir GV.DecompProofs GV.SubCart GV.Recompose.
 Open Scope R_scope.
 Require Import GV.Properties.C11.
 Check C11_project_structure : forall (L : libm) g onto,
@@ -80,3 +80,26 @@ Check C11_reject_orthogonal : forall (L : libm) (u u2 : R) g onto,
   Rabs (R_ (mag r) * (cos (dirR (ang r)) * cos (dir (ang onto)) + sin (dirR (ang r)) * sin (dir (ang onto))))
     <= 2 * T + 3 * R_ (mag g) * (u + 10002 / 100000000000000) + bpow radix2 (-1075).
 Print Assumptions C11_reject_orthogonal.
+Check C11_recompose : forall (L : libm) (u u2 : R) g onto, cos_acc L u -> sin_acc L u -> atan2_acc L u2 -> u <= / 1000 ->
+  let p := gproject L g onto in
+  canonp (rem (ang g)) -> canonp (rem (ang p)) -> (0 <= blade (ang p))%Z ->
+  let np := gnegate p in
+  aeqb (ang g) (ang np) = false ->
+  aeqb (add_vv (ang g) (new one one)) (ang np) || aeqb (add_vv (ang np) (new one one)) (ang g) = false ->
+  (0 <= blade (ang g) + blade (ang np) < 2 ^ 40)%Z ->
+  fin (gadd_rad L g np) ->
+  fin (fadd (fmul (mag g) (sinF L (grade_angle (ang g)))) (fmul (mag np) (sinF L (grade_angle (ang np))))) ->
+  fin (fadd (fmul (mag g) (cosF L (grade_angle (ang g)))) (fmul (mag np) (cosF L (grade_angle (ang np))))) ->
+  let r := reject L g onto in
+  let Wx := R_ (mag g) * cos (dir (ang g)) - R_ (mag p) * cos (dir (ang p)) in
+  let Wy := R_ (mag g) * sin (dir (ang g)) - R_ (mag p) * sin (dir (ang p)) in
+  let M := Rabs (R_ (mag g)) + Rabs (R_ (mag p)) in
+  let E := M * (u + 3 / 1000000000000000) + 4 * bpow radix2 (-1075) in
+  let S := R_ (mag g) * R_ (mag g) + R_ (mag p) * R_ (mag p) in
+  let Bnd := S * (u + 1 / 100000000000000) + 10 * bpow radix2 (-1075) in
+  let tolN := R_ eps10 + 3 / 100000000000000 + IZR (blade (ang g) + blade (ang np)) * (4 / 1000000000000000) in
+  let T := sqrt Bnd * (1 + / 9007199254740992) + / 9007199254740992 * sqrt (Wx * Wx + Wy * Wy) + bpow radix2 (-1075)
+           + 3 * E + (M + 2 * E) * (u2 + tolN) in
+  Rabs ((R_ (mag r) * cos (dirR (ang r)) + R_ (mag p) * cos (dir (ang p))) - R_ (mag g) * cos (dir (ang g))) <= T /\
+  Rabs ((R_ (mag r) * sin (dirR (ang r)) + R_ (mag p) * sin (dir (ang p))) - R_ (mag g) * sin (dir (ang g))) <= T.
+Print Assumptions C11_recompose.
